@@ -491,6 +491,70 @@ def r10_ranged_iter_and_retain_guard(ctx, P, R="C06.R10"):
                      site="retain guard skips the dropped element")
 
 
+def r11_dedup_protocol(ctx, P, R="C06.R11"):
+    ctx.rule(R, "dedup_by (std's protocol): the duplicate is dropped only after gap.read was advanced past it (a panicking Drop must "
+                "not leave it inside the range the guard restores), and the predicate compares the candidate with the last *retained* "
+                "element (slot gap.write - 1), not with its original neighbour")
+    bs = [b for b in P.fn_bodies() if b.item["name"] == "dedup_by" and b.path.startswith("bump_box::BumpBox::<'a, [T]>::")]
+    if not ctx.need(len(bs) == 1, R, "BumpBox<[T]>::dedup_by"):
+        return
+    b = bs[0]
+    drops = [(s_, t) for s_, t in b.calls() if t["f"].get("name") == "drop_in_place"]
+    rd_stores = [x for x, st in b.assigns() if st["p"]["p"] and any(isinstance(pe, dict) and pe.get("n") == "read" for pe in st["p"]["p"])]
+    preds = [(s_, t) for s_, t in b.calls() if t["f"].get("path") == "core::ops::FnMut::call_mut"]
+    if ctx.need(bool(drops) and bool(rd_stores) and len(preds) == 1, R, "drop_in_place, gap.read stores and the predicate call in dedup_by"):
+        ds = drops[0][0]
+        ok = any(b.dominates(x, ds) and b.dominates(preds[0][0], x) for x in rd_stores)
+        ctx.inst(R, b.path, ok, "gap.read is advanced between the predicate and the drop of the duplicate" if ok else
+                 "the duplicate is dropped before gap.read is advanced: if its Drop panics, the guard copies it back into the slice and "
+                 "it is dropped a second time with the owner", where=b.where(ds), site="read advanced before drop")
+        ps, pt = preds[0]
+
+        def gap_fields(local, seen):
+            """Names of the gap struct's fields that flow (through single-assignment temporaries) into `local`."""
+            if local in seen:
+                return set()
+            seen.add(local)
+            out = set()
+
+            def of_place(pl):
+                named = [pe.get("n") for pe in pl["p"] if isinstance(pe, dict) and pe.get("n") in ("read", "write")]
+                if named:
+                    out.add(named[0])
+                else:
+                    out.update(gap_fields(pl["l"], seen))
+
+            def of_op(o):
+                if isinstance(o, dict) and o.get("k") in ("cp", "mv"):
+                    of_place(o["p"])
+
+            for _, st in b.assigns():
+                if st["p"]["l"] == local and not st["p"]["p"]:
+                    r = st["r"]
+                    for k in ("o", "a", "b"):
+                        of_op(r.get(k))
+                    for o in r.get("fields", []) or []:
+                        of_op(o)
+                    if isinstance(r.get("p"), dict):
+                        of_place(r["p"])
+            for _, t in b.calls():
+                if t["dest"]["l"] == local and not t["dest"]["p"]:
+                    for o in t["args"]:
+                        of_op(o)
+            return out
+
+        tup = pt["args"][1]["p"]["l"]
+        comps = []
+        for _, st in b.assigns():
+            if st["p"]["l"] == tup and not st["p"]["p"] and st["r"].get("k") == "agg":
+                comps = [gap_fields(o["p"]["l"], set()) for o in st["r"].get("fields", []) if o.get("k") in ("cp", "mv")]
+        ok2 = len(comps) == 2 and comps[0] == {"read"} and comps[1] == {"write"}
+        ctx.inst(R, b.path, ok2, "same_bucket(slot[read], slot[write - 1])" if ok2 else
+                 f"the predicate's arguments are computed from gap fields {comps}: the candidate (slot read) must be compared with the last "
+                 "retained element (slot write - 1); comparing with its original neighbour changes the result for merging / non-transitive predicates",
+                 where=b.where(ps), site="compares with the retained element")
+
+
 def run(ctx, progs):
     ctx.assume("rustc's drop elaboration: a moved value is not dropped again; unwind edges and drop flags are as in MIR")
     ctx.assume("user code = calls of foreign-trait methods on type parameters (closures, Clone, PartialEq, Iterator) and drops of "
@@ -506,6 +570,7 @@ def run(ctx, progs):
         r6_counted_per_iteration(ctx, P)
         r7_forgotten_callback_results(ctx, P)
         r10_ranged_iter_and_retain_guard(ctx, P)
+        r11_dedup_protocol(ctx, P)
         from . import c08
         c08.r7_drain_keep_rest(ctx, P, R="C06.R8")
         from . import c16
